@@ -193,9 +193,19 @@ class Session:
             t = time.time()
             try:
                 rep = fallback()
-            except Exception:
+            except Exception as e:
                 rep = None
-                r.detail += " | bounded fall-back crashed: " + traceback.format_exc()[-400:]
+                tb = traceback.extract_tb(e.__traceback__)
+                inner = tb[-1].filename if tb else ""
+                third = ("site-packages" in inner or "/lib/python" in inner) and any(os.path.abspath(fr.filename).startswith(os.path.abspath(REPO) + os.sep) for fr in tb)
+                if os.path.abspath(inner).startswith(os.path.abspath(REPO) + os.sep) or third:
+                    # the battery feeds legitimate inputs only and catches the refusals it expects itself: an exception raised inside the package (or by a library
+                    # called from it) on such an input is a failing input, not a checker problem
+                    where = next((fr for fr in reversed(tb) if os.path.abspath(fr.filename).startswith(os.path.abspath(REPO) + os.sep)), tb[-1])
+                    rep = {"reproduced": True, "observed": "raises %r at %s:%d (%s) on a legitimate input of the native battery" % (e, os.path.relpath(where.filename, REPO), where.lineno, where.name),
+                           "expected": "the value the contract's oracle gives", "traceback": traceback.format_exc()[-600:]}
+                else:
+                    r.detail += " | bounded fall-back crashed: " + traceback.format_exc()[-400:]
             if isinstance(rep, dict) and rep.get("reproduced"):
                 r = Result(REFUTED, "runtime-contract", "the obligation is undecided on this source (%s); its bounded fall-back (native run against the contract's oracle) fails: %s"
                            % (r.detail[:300], json.dumps(_jsonable(rep))[:1500]), witness_id="fallback:" + name, replay=rep, time_s=time.time() - t)
